@@ -117,6 +117,18 @@ def run(chk):
                 lambda x=x, ref=ref, md=md: int(ds.nndist_hamming(x, set(ref), maxdist=md)), int, "nndist")
         add({"op": "isdist_ham", "x": x, "ref": ref, "A": AA, "n": 2}, lambda x=x, ref=ref: bool(ds._isdist2_hamming(x, set(ref))), bool, "isdist")
         add({"op": "isdist_ham", "x": x, "ref": ref, "A": AA, "n": 3}, lambda x=x, ref=ref: bool(ds._isdist3_hamming(x, set(ref))), bool, "isdist")
+    for _ in range(30 if not thorough else 300):
+        x = "".join(rng.choice("ACD") for _ in range(rng.randint(2, 6)))
+        i = rng.randrange(len(x) + 1)
+        indel = [x[:i] + rng.choice("ACD") + x[i:], x[:max(i - 1, 0)] + x[i:]]
+        ref = [rng.choice(indel)] + ([x[:-1] + ("A" if x[-1] != "A" else "C")] if rng.random() < 0.3 else [])
+        for md in (1, 2, 4):
+            add({"op": "nndist_hamming", "x": x, "ref": ref, "A": AA, "maxdist": md},
+                lambda x=x, ref=ref, md=md: int(ds.nndist_hamming(x, set(ref), maxdist=md)), int, "nndist")
+        add({"op": "isdist1", "x": x, "ref": ref, "A": AA, "ham": True},
+            lambda x=x, ref=ref: bool(ds.isdist1(x, set(ref), ds.hamming_neighbors)), bool, "isdist")
+        add({"op": "isdist1", "x": x, "ref": ref, "A": AA, "ham": False},
+            lambda x=x, ref=ref: bool(ds.isdist1(x, set(ref))), bool, "isdist")
     ops.append({"op": "nndist_hamming", "x": "AC", "ref": ["AC"], "A": AA, "maxdist": 5})
     reals.append(core.call_real(lambda: ds.nndist_hamming("AC", {"AC"}, maxdist=5)))
     meta.append((ops[-1], lambda v: v, "nndist"))
